@@ -22,7 +22,7 @@ import (
 // without any health check changing (the blocking health query then ends by its wait time, with the index it had).
 func TestVerifC14RegWatch(t *testing.T) {
 	L := ev.Begin("C14", "c14-watch", "model_checking",
-		"every history of length <=3 over catalog states of one service {port 8080, port 9090, prefix /web2 on port 8080} through the real ServiceMonitor.Watch against an in-process fake Consul whose health index does NOT move when only the catalog changes (the blocking health query then returns by its wait time with the old index); after every step the published configuration must name the registration as it is now. non-trivial = histories with a change")
+		"every history of length <=3 over catalog states of one service {port 8080, port 9090, prefix /web2 on port 8080} through the real ServiceMonitor.Watch against an in-process fake Consul whose health index does NOT move when only the catalog changes (the blocking health query then returns by its wait time with the old index); after every step the published configuration must name the registration as it is now; the same histories in poll mode (registry.consul.pollinterval=1ms, no blocking query): the third publication after a change at the latest, and the one after it, must name the registration as it is now. non-trivial = histories with a change")
 	type st struct {
 		port   int
 		prefix string
@@ -78,60 +78,82 @@ func TestVerifC14RegWatch(t *testing.T) {
 		}
 	}
 	rec(nil)
-	for _, h := range hists {
-		mu.Lock()
-		cur = states[0]
-		mu.Unlock()
-		srv := newServer()
-		client, err := api.NewClient(&api.Config{Address: strings.TrimPrefix(srv.URL, "http://"), Scheme: "http"})
-		if err != nil {
-			panic("VERIF-INFRA: " + err.Error())
-		}
-		mon := NewServiceMonitor(client, &config.Consul{TagPrefix: "urlprefix-", ServiceStatus: []string{"passing"}, ChecksRequired: "one", ServiceMonitors: 1}, "dc1")
-		updates := make(chan string, 16)
-		go mon.Watch(updates)
-		want := func(s st) string { return fmt.Sprintf("route add web %s http://10.0.0.1:%d/", s.prefix, s.port) }
-		next := func() string {
-			select {
-			case u := <-updates:
-				return u
-			case <-time.After(20 * time.Second):
-				return "<nothing published within 20s>"
-			}
-		}
-		L.Case()
-		changes := false
-		d := map[string]interface{}{"history": h}
-		got := next()
-		bad := got != want(states[0])
-		prev := 0
-		for _, i := range h {
-			if bad {
-				break
-			}
+	for _, poll := range []bool{false, true} {
+		for _, h := range hists {
 			mu.Lock()
-			cur = states[i]
+			cur = states[0]
 			mu.Unlock()
-			changes = changes || i != prev
-			prev = i
-			wake <- struct{}{} // the wait time of the blocking query is over
-			got = next()
-			if got != want(states[i]) {
-				bad = true
-				d["registered_now"], d["published"] = want(states[i]), got
+			srv := newServer()
+			client, err := api.NewClient(&api.Config{Address: strings.TrimPrefix(srv.URL, "http://"), Scheme: "http"})
+			if err != nil {
+				panic("VERIF-INFRA: " + err.Error())
 			}
+			mon := NewServiceMonitor(client, &config.Consul{TagPrefix: "urlprefix-", ServiceStatus: []string{"passing"}, ChecksRequired: "one", ServiceMonitors: 1}, "dc1")
+			if poll {
+				// poll mode (registry.consul.pollinterval>0): no blocking query, the state is fetched again after every interval
+				mon.config.PollInterval = time.Millisecond
+			}
+			updates := make(chan string, 16)
+			if poll {
+				updates = make(chan string) // unbuffered: at most the publication in flight is older than the change
+			}
+			go mon.Watch(updates)
+			want := func(s st) string { return fmt.Sprintf("route add web %s http://10.0.0.1:%d/", s.prefix, s.port) }
+			next := func() string {
+				select {
+				case u := <-updates:
+					return u
+				case <-time.After(20 * time.Second):
+					return "<nothing published within 20s>"
+				}
+			}
+			L.Case()
+			changes := false
+			d := map[string]interface{}{"history": h, "poll_mode": poll}
+			got := next()
+			bad := got != want(states[0])
+			prev := 0
+			for _, i := range h {
+				if bad {
+					break
+				}
+				mu.Lock()
+				cur = states[i]
+				mu.Unlock()
+				changes = changes || i != prev
+				prev = i
+				if poll {
+					// the publication being built when the registration changed may still describe the old one (and one more
+					// may mix the two fetches); the third at the latest must be the registration as it is now, and stay so
+					for k := 0; k < 3; k++ {
+						if got = next(); got == want(states[i]) {
+							break
+						}
+					}
+					if got == want(states[i]) {
+						got = next()
+					}
+				} else {
+					wake <- struct{}{} // the wait time of the blocking query is over
+					got = next()
+				}
+				if got != want(states[i]) {
+					bad = true
+					d["registered_now"], d["published"] = want(states[i]), got
+				}
+			}
+			if changes {
+				L.NontrivialKey(fmt.Sprint(h, poll))
+			}
+			L.Outcome(fmt.Sprint(bad))
+			if bad {
+				L.Violation("commands-do-not-follow-a-changed-registration", d)
+			}
+			srv.CloseClientConnections()
+			srv.Close() // the watcher of this history goes on asking a server that is gone (it cannot be stopped): harmless
 		}
-		if changes {
-			L.NontrivialKey(fmt.Sprint(h))
-		}
-		L.Outcome(fmt.Sprint(bad))
-		if bad {
-			L.Violation("commands-do-not-follow-a-changed-registration", d)
-		}
-		srv.CloseClientConnections()
-		srv.Close() // the watcher of this history goes on asking a server that is gone (it cannot be stopped): harmless
 	}
 	// the watchers of the finished histories are parked in their blocking queries; closing the server ends them
-	L.AddTraces(int64(len(hists)))
+	L.AddTraces(int64(2 * len(hists)))
 	L.End(true)
 }
